@@ -13,95 +13,99 @@ Lemma replicaBaseScore_ok : replicaBaseScore =
 Proof. reflexivity. Qed.
 
 Lemma rule_fit_order_ok : rule_fit_order =
-  ["len(a.Peers) < len(b.Peers) => return -1"; "len(a.Peers) > len(b.Peers) => return 1"; "len(a.PeersWithDifferentRole) > len(b.PeersWithDifferentRole) => return -1"; "len(a.PeersWithDifferentRole) < len(b.PeersWithDifferentRole) => return 1"; "a.IsolationScore < b.IsolationScore => return -1"; "a.IsolationScore > b.IsolationScore => return 1"; "default => return 0"].
+  ["len(_v0.Peers) < len(_v1.Peers) => return -1"; "len(_v0.Peers) > len(_v1.Peers) => return 1"; "len(_v0.PeersWithDifferentRole) > len(_v1.PeersWithDifferentRole) => return -1"; "len(_v0.PeersWithDifferentRole) < len(_v1.PeersWithDifferentRole) => return 1"; "_v0.IsolationScore < _v1.IsolationScore => return -1"; "_v0.IsolationScore > _v1.IsolationScore => return 1"; "default => return 0"].
 Proof. reflexivity. Qed.
 
 Lemma region_fit_order_ok : region_fit_order =
-  ["len(a.OrphanPeers) < len(b.OrphanPeers) => return 1"; "len(a.OrphanPeers) > len(b.OrphanPeers) => return -1"; "default => return 0"].
+  ["len(_v0.OrphanPeers) < len(_v1.OrphanPeers) => return 1"; "len(_v0.OrphanPeers) > len(_v1.OrphanPeers) => return -1"; "default => return 0"].
 Proof. reflexivity. Qed.
 
 Lemma role_strict_cases_ok : role_strict_cases =
-  ["role == Voter => return !core.IsLearner(p.Peer)"; "role == Leader => return p.isLeader"; "role == Follower => return !core.IsLearner(p.Peer) && !p.isLeader"; "role == Learner => return core.IsLearner(p.Peer)"].
+  ["_v1 == Voter => return !core.IsLearner(_v0.Peer)"; "_v1 == Leader => return _v0.isLeader"; "_v1 == Follower => return !core.IsLearner(_v0.Peer) && !_v0.isLeader"; "_v1 == Learner => return core.IsLearner(_v0.Peer)"].
 Proof. reflexivity. Qed.
 
 Lemma compare_best_cases_ok : compare_best_cases =
-  ["cmp == 1 => w.bestFit.RuleFits[index] = rf; for i := index + 1; i < len(w.rules); i++ { w.bestFit.RuleFits[i] = nil }; w.fitRule(index + 1); w.updateOrphanPeers(index + 1); return true"; "cmp == 0 => if w.fitRule(index + 1) { w.bestFit.RuleFits[index] = rf return true }"].
+  ["_v4 == 1 => _v0.bestFit.RuleFits[_v2] = _v3; for _v6 := _v2 + 1; _v6 < len(_v0.rules); _v6++ { _v0.bestFit.RuleFits[_v6] = nil }; _v0.fitRule(_v2 + 1); _v0.updateOrphanPeers(_v2 + 1); return true"; "_v4 == 0 => if _v0.fitRule(_v2 + 1) { _v0.bestFit.RuleFits[_v2] = _v3 return true }"].
 Proof. reflexivity. Qed.
 
 Lemma match_store_cases_ok : match_store_cases =
-  ["c.Op == In => label := store.GetLabelValue(c.Key); return label != """" && slice.AnyOf(c.Values, func(i int) bool { return c.Values[i] == label })"; "c.Op == NotIn => label := store.GetLabelValue(c.Key); return label == """" || slice.NoneOf(c.Values, func(i int) bool { return c.Values[i] == label })"; "c.Op == Exists => return store.GetLabelValue(c.Key) != """""; "c.Op == NotExists => return store.GetLabelValue(c.Key) == """""].
+  ["_v0.Op == In => _v2 := _v1.GetLabelValue(_v0.Key); return _v2 != """" && slice.AnyOf(_v0.Values, func(_v3 int) bool { return _v0.Values[_v3] == _v2 })"; "_v0.Op == NotIn => _v4 := _v1.GetLabelValue(_v0.Key); return _v4 == """" || slice.NoneOf(_v0.Values, func(_v5 int) bool { return _v0.Values[_v5] == _v4 })"; "_v0.Op == Exists => return _v1.GetLabelValue(_v0.Key) != """""; "_v0.Op == NotExists => return _v1.GetLabelValue(_v0.Key) == """""].
 Proof. reflexivity. Qed.
 
 Lemma body_RegionFit_IsSatisfied_ok : body_RegionFit_IsSatisfied =
-  ["if len(f.RuleFits) == 0 { return false }"; "for _, r := range f.RuleFits { if !r.IsSatisfied() { return false } }"; "return len(f.OrphanPeers) == 0"].
+  ["if len(_v0.RuleFits) == 0 { return false }"; "for _, _v1 := range _v0.RuleFits { if !_v1.IsSatisfied() { return false } }"; "return len(_v0.OrphanPeers) == 0"].
 Proof. reflexivity. Qed.
 
 Lemma body_RuleFit_IsSatisfied_ok : body_RuleFit_IsSatisfied =
-  ["return len(f.Peers) == f.Rule.Count && len(f.PeersWithDifferentRole) == 0"].
+  ["return len(_v0.Peers) == _v0.Rule.Count && len(_v0.PeersWithDifferentRole) == 0"].
 Proof. reflexivity. Qed.
 
 Lemma body_CompareRegionFit_ok : body_CompareRegionFit =
-  ["for i := range a.RuleFits { if i >= len(b.RuleFits) { break } if cmp := compareRuleFit(a.RuleFits[i], b.RuleFits[i]); cmp != 0 { return cmp } }"; "switch { case len(a.OrphanPeers) < len(b.OrphanPeers): return 1 case len(a.OrphanPeers) > len(b.OrphanPeers): return -1 default: return 0 }"].
+  ["for _v2 := range _v0.RuleFits { if _v2 >= len(_v1.RuleFits) { break } if _v3 := compareRuleFit(_v0.RuleFits[_v2], _v1.RuleFits[_v2]); _v3 != 0 { return _v3 } }"; "switch { case len(_v0.OrphanPeers) < len(_v1.OrphanPeers): return 1 case len(_v0.OrphanPeers) > len(_v1.OrphanPeers): return -1 default: return 0 }"].
 Proof. reflexivity. Qed.
 
 Lemma body_FitRegion_ok : body_FitRegion =
-  ["w := newFitWorker(stores, region, rules)"; "w.run()"; "return &w.bestFit"].
+  ["_v3 := newFitWorker(_v0, _v1, _v2)"; "_v3.run()"; "return &_v3.bestFit"].
 Proof. reflexivity. Qed.
 
 Lemma body_newFitWorker_ok : body_newFitWorker =
-  ["regionPeers := region.GetPeers()"; "peers := make([]*fitPeer, 0, len(regionPeers))"; "for _, p := range regionPeers { peers = append(peers, &fitPeer{ Peer: p, store: stores.GetStore(p.GetStoreId()), isLeader: region.GetLeader().GetId() == p.GetId(), }) }"; "sort.Slice(peers, func(i, j int) bool { return peers[i].GetId() < peers[j].GetId() })"; "return &fitWorker{ stores: stores.GetStores(), bestFit: RegionFit{RuleFits: make([]*RuleFit, len(rules))}, peers: peers, rules: rules, }"].
+  ["_v3 := _v1.GetPeers()"; "_v4 := make([]*fitPeer, 0, len(_v3))"; "for _, _v5 := range _v3 { _v4 = append(_v4, &fitPeer{ Peer: _v5, store: _v0.GetStore(_v5.GetStoreId()), isLeader: _v1.GetLeader().GetId() == _v5.GetId(), }) }"; "sort.Slice(_v4, func(_v6, _v7 int) bool { return _v4[_v6].GetId() < _v4[_v7].GetId() })"; "return &fitWorker{ _v0: _v0.GetStores(), bestFit: RegionFit{RuleFits: make([]*RuleFit, len(_v2))}, _v4: _v4, _v2: _v2, }"].
 Proof. reflexivity. Qed.
 
 Lemma body_fitWorker_run_ok : body_fitWorker_run =
-  ["w.fitRule(0)"; "w.updateOrphanPeers(0)"].
+  ["_v0.fitRule(0)"; "_v0.updateOrphanPeers(0)"].
 Proof. reflexivity. Qed.
 
 Lemma body_fitWorker_fitRule_ok : body_fitWorker_fitRule =
-  ["if index >= len(w.rules) { return false }"; "var candidates []*fitPeer"; "if checkRule(w.rules[index], w.stores) { for _, p := range w.peers { if MatchLabelConstraints(p.store, w.rules[index].LabelConstraints) && p.matchRoleLoose(w.rules[index].Role) && !p.selected { candidates = append(candidates, p) } } }"; "count := w.rules[index].Count"; "if len(candidates) < count { count = len(candidates) }"; "return w.enumPeers(candidates, nil, index, count)"].
+  ["if _v1 >= len(_v0.rules) { return false }"; "var _v2 []*fitPeer"; "if checkRule(_v0.rules[_v1], _v0.stores) { for _, _v3 := range _v0.peers { if MatchLabelConstraints(_v3.store, _v0.rules[_v1].LabelConstraints) && _v3.matchRoleLoose(_v0.rules[_v1].Role) && !_v3.selected { _v2 = append(_v2, _v3) } } }"; "_v4 := _v0.rules[_v1].Count"; "if len(_v2) < _v4 { _v4 = len(_v2) }"; "return _v0.enumPeers(_v2, nil, _v1, _v4)"].
 Proof. reflexivity. Qed.
 
 Lemma body_fitWorker_enumPeers_ok : body_fitWorker_enumPeers =
-  ["if len(selected) == count { return w.compareBest(selected, index) }"; "var better bool"; "for i, p := range candidates { p.selected = true better = w.enumPeers(candidates[i+1:], append(selected, p), index, count) || better p.selected = false }"; "return better"].
+  ["if len(_v2) == _v4 { return _v0.compareBest(_v2, _v3) }"; "var _v5 bool"; "for _v6, _v7 := range _v1 { _v7.selected = true _v5 = _v0.enumPeers(_v1[_v6+1:], append(_v2, _v7), _v3, _v4) || _v5 _v7.selected = false }"; "return _v5"].
 Proof. reflexivity. Qed.
 
 Lemma body_fitWorker_compareBest_ok : body_fitWorker_compareBest =
-  ["rf := newRuleFit(w.rules[index], selected)"; "cmp := 1"; "if best := w.bestFit.RuleFits[index]; best != nil { cmp = compareRuleFit(rf, best) }"; "switch cmp { case 1: w.bestFit.RuleFits[index] = rf for i := index + 1; i < len(w.rules); i++ { w.bestFit.RuleFits[i] = nil } w.fitRule(index + 1) w.updateOrphanPeers(index + 1) return true case 0: if w.fitRule(index + 1) { w.bestFit.RuleFits[index] = rf return true } }"; "return false"].
+  ["_v3 := newRuleFit(_v0.rules[_v2], _v1)"; "_v4 := 1"; "if _v5 := _v0.bestFit.RuleFits[_v2]; _v5 != nil { _v4 = compareRuleFit(_v3, _v5) }"; "switch _v4 { case 1: _v0.bestFit.RuleFits[_v2] = _v3 for _v6 := _v2 + 1; _v6 < len(_v0.rules); _v6++ { _v0.bestFit.RuleFits[_v6] = nil } _v0.fitRule(_v2 + 1) _v0.updateOrphanPeers(_v2 + 1) return true case 0: if _v0.fitRule(_v2 + 1) { _v0.bestFit.RuleFits[_v2] = _v3 return true } }"; "return false"].
 Proof. reflexivity. Qed.
 
 Lemma body_fitWorker_updateOrphanPeers_ok : body_fitWorker_updateOrphanPeers =
-  ["if index != len(w.rules) { return }"; "w.bestFit.OrphanPeers = w.bestFit.OrphanPeers[:0]"; "for _, p := range w.peers { if !p.selected { w.bestFit.OrphanPeers = append(w.bestFit.OrphanPeers, p.Peer) } }"].
+  ["if _v1 != len(_v0.rules) { return }"; "_v0.bestFit.OrphanPeers = _v0.bestFit.OrphanPeers[:0]"; "for _, _v2 := range _v0.peers { if !_v2.selected { _v0.bestFit.OrphanPeers = append(_v0.bestFit.OrphanPeers, _v2.Peer) } }"].
 Proof. reflexivity. Qed.
 
 Lemma body_newRuleFit_ok : body_newRuleFit =
-  ["rf := &RuleFit{Rule: rule, IsolationScore: isolationScore(peers, rule.LocationLabels)}"; "for _, p := range peers { rf.Peers = append(rf.Peers, p.Peer) if !p.matchRoleStrict(rule.Role) { rf.PeersWithDifferentRole = append(rf.PeersWithDifferentRole, p.Peer) } }"; "return rf"].
+  ["_v2 := &RuleFit{Rule: _v0, IsolationScore: isolationScore(_v1, _v0.LocationLabels)}"; "for _, _v3 := range _v1 { _v2.Peers = append(_v2.Peers, _v3.Peer) if !_v3.matchRoleStrict(_v0.Role) { _v2.PeersWithDifferentRole = append(_v2.PeersWithDifferentRole, _v3.Peer) } }"; "return _v2"].
 Proof. reflexivity. Qed.
 
 Lemma body_fitPeer_matchRoleLoose_ok : body_fitPeer_matchRoleLoose =
-  ["return role != Learner || core.IsLearner(p.Peer)"].
+  ["return _v1 != Learner || core.IsLearner(_v0.Peer)"].
 Proof. reflexivity. Qed.
 
 Lemma body_isolationScore_ok : body_isolationScore =
-  ["var score float64"; "if len(labels) == 0 || len(peers) <= 1 { return 0 }"; "const replicaBaseScore = 100"; "for i, p1 := range peers { for _, p2 := range peers[i+1:] { if index := p1.store.CompareLocation(p2.store, labels); index != -1 { score += math.Pow(replicaBaseScore, float64(len(labels)-index-1)) } } }"; "return score"].
+  ["var _v2 float64"; "if len(_v1) == 0 || len(_v0) <= 1 { return 0 }"; "const replicaBaseScore = 100"; "for _v3, _v4 := range _v0 { for _, _v5 := range _v0[_v3+1:] { if _v6 := _v4.store.CompareLocation(_v5.store, _v1); _v6 != -1 { _v2 += math.Pow(replicaBaseScore, float64(len(_v1)-_v6-1)) } } }"; "return _v2"].
 Proof. reflexivity. Qed.
 
 Lemma body_isExclusiveLabel_ok : body_isExclusiveLabel =
-  ["return strings.HasPrefix(key, ""$"") || slice.AnyOf(legacyExclusiveLabels, func(i int) bool { return key == legacyExclusiveLabels[i] })"].
+  ["return strings.HasPrefix(_v0, ""$"") || slice.AnyOf(legacyExclusiveLabels, func(_v1 int) bool { return _v0 == legacyExclusiveLabels[_v1] })"].
 Proof. reflexivity. Qed.
 
 Lemma body_MatchLabelConstraints_ok : body_MatchLabelConstraints =
-  ["if store == nil { return false }"; "for _, l := range store.GetLabels() { if isExclusiveLabel(l.GetKey()) && slice.NoneOf(constraints, func(i int) bool { return constraints[i].Key == l.GetKey() }) { return false } }"; "return slice.AllOf(constraints, func(i int) bool { return constraints[i].MatchStore(store) })"].
+  ["if _v0 == nil { return false }"; "for _, _v2 := range _v0.GetLabels() { if isExclusiveLabel(_v2.GetKey()) && slice.NoneOf(_v1, func(_v3 int) bool { return _v1[_v3].Key == _v2.GetKey() }) { return false } }"; "return slice.AllOf(_v1, func(_v4 int) bool { return _v1[_v4].MatchStore(_v0) })"].
 Proof. reflexivity. Qed.
 
 Lemma body_checkRule_ok : body_checkRule =
-  ["for _, store := range stores { if MatchLabelConstraints(store, rule.LabelConstraints) { return true } }"; "return false"].
+  ["for _, _v2 := range _v1 { if MatchLabelConstraints(_v2, _v0.LabelConstraints) { return true } }"; "return false"].
 Proof. reflexivity. Qed.
 
 Lemma body_StoreInfo_GetLabelValue_ok : body_StoreInfo_GetLabelValue =
-  ["for _, label := range s.GetLabels() { if strings.EqualFold(label.GetKey(), key) { return label.GetValue() } }"; "return """""].
+  ["for _, _v2 := range _v0.GetLabels() { if strings.EqualFold(_v2.GetKey(), _v1) { return _v2.GetValue() } }"; "return """""].
 Proof. reflexivity. Qed.
 
 Lemma body_StoreInfo_CompareLocation_ok : body_StoreInfo_CompareLocation =
-  ["for i, key := range labels { v1, v2 := s.GetLabelValue(key), other.GetLabelValue(key) if v1 != """" && v2 != """" && !strings.EqualFold(v1, v2) { return i } }"; "return -1"].
+  ["for _v3, _v4 := range _v2 { _v5, _v6 := _v0.GetLabelValue(_v4), _v1.GetLabelValue(_v4) if _v5 != """" && _v6 != """" && !strings.EqualFold(_v5, _v6) { return _v3 } }"; "return -1"].
+Proof. reflexivity. Qed.
+
+Lemma adjust_rule_guards_ok : adjust_rule_guards =
+  ["_v3 != nil"; "_v3 != nil"; "len(_v1.EndKey) > 0 && bytes.Compare(_v1.EndKey, _v1.StartKey) <= 0"; "_v3 != nil"; "_v3 != nil"; "_v2 != _v1.GroupID"; "_v1.GroupID == """""; "_v1.ID == """""; "!validateRole(_v1.Role)"; "_v1.Count <= 0"; "_v1.Role == Leader && _v1.Count > 1"; "!validateOp(_v4.Op)"; "len(_v5) > 0 && !checkRule(_v1, _v5)"].
 Proof. reflexivity. Qed.
 
 Lemma legacy_exclusive_labels_ok : legacy_exclusive_labels =
@@ -143,3 +147,9 @@ Proof. reflexivity. Qed.
 Lemma op_notexists_ok : op_notexists =
   "notExists".
 Proof. reflexivity. Qed.
+
+(* the guard that keeps non-positive counts away from FitRegion sits in RuleManager.adjustRule, which every
+   rule a RuleManager serves has passed (SetRule / SetRules / Batch / bundles / loadRules): with a negative
+   Count the search never calls compareBest and leaves a nil RuleFit (driver probe `negative-count`) *)
+Lemma count_guard_present : exists v, In (v ++ ".Count <= 0") adjust_rule_guards.
+Proof. exists "_v1". vm_compute. tauto. Qed.
